@@ -628,7 +628,14 @@ fn add_path_data<W: Write>(
 
                 // Beatmaps such as /b/1027526 have no control points so the
                 // path type needs to be followed by `,` instead of `|`.
-                writer.write_all(slice::from_ref(&separator(i)))?;
+                // Otherwise the type is always followed by further points.
+                let type_separator = if control_points.len() == 1 {
+                    b','
+                } else {
+                    b'|'
+                };
+
+                writer.write_all(slice::from_ref(&type_separator))?;
 
                 last_type = Some(path_type);
             } else {
